@@ -30,6 +30,8 @@ TERMINAL_ON_CLONED_HANDLE = {
 FLOORS = {
     'C16.E2.producers': 6,
     'C16.E4.sites': 4,
+    'C17.K1.composites': 6,
+    'C17.K3.bodies': 40,
 }
 
 
